@@ -1044,12 +1044,33 @@ def gen_mpe_case(rng):
     return ops
 
 
+def _pairs(container):
+    """(key, value) pairs of the device's book-keeping, whatever container holds it (a dict today; a list indexed by channel /
+    note is the same book-keeping).  The property observes the wire; the book-keeping is compared with the model only as long
+    as it can be read this way."""
+    if hasattr(container, "items"):
+        return list(container.items())
+    return list(enumerate(container))
+
+
 def mpe_state(dev):
     from isobar.io.mpe.note import MPENote
-    chans = " ".join("%d:%d" % (c, n.note) for c, n in sorted(dev.channel_assignments.items()) if isinstance(n, MPENote))
-    notes = " ".join("%d@%d" % (k, n.channel) for k, n in sorted(dev.note_assignments.items())
-                     if isinstance(n, MPENote) and k < 200)
+    try:
+        chans = " ".join("%d:%d" % (c, n.note) for c, n in sorted(_pairs(dev.channel_assignments), key=lambda kv: kv[0])
+                         if isinstance(n, MPENote))
+        notes = " ".join("%d@%d" % (k, n.channel) for k, n in sorted(_pairs(dev.note_assignments), key=lambda kv: kv[0])
+                         if isinstance(n, MPENote) and k < 200)
+    except Exception:  # noqa: BLE001 — book-keeping kept some other way: only the wire is compared
+        return "?|?"
     return chans + "|" + notes
+
+
+def _mpe_objects(dev):
+    from isobar.io.mpe.note import MPENote
+    try:
+        return [x for _k, x in _pairs(dev.channel_assignments) if isinstance(x, MPENote)]
+    except Exception:  # noqa: BLE001
+        return []
 
 
 def run_mpe_impl(ops):
@@ -1064,13 +1085,13 @@ def run_mpe_impl(ops):
         res, ret, target = "ok", None, None
         try:
             if op[0] == "on":
-                before = set(id(x) for x in dev.channel_assignments.values() if isinstance(x, MPENote))
+                before = set(id(x) for x in _mpe_objects(dev))
                 try:
                     ret = dev.note_on(op[1], op[2])
                 finally:
                     if ret is None:
                         # an MPENote that was created but not returned (exception after the allocation) still counts
-                        new = [x for x in dev.channel_assignments.values() if isinstance(x, MPENote) and id(x) not in before]
+                        new = [x for x in _mpe_objects(dev) if id(x) not in before]
                         if new:
                             objs.append(None)
                 if ret is None:
@@ -1221,6 +1242,10 @@ def check_mpe(ctx, cases, verbose=False, shrink=True):
     for ops, (impl, recs), keep, (a, n) in zip(cases, runs, keeps, spans):
         model = [canon_model_mpe(l) for l in model_all[a + 1:a + n]] if model_all else None
         impl_k = [impl[i] for i in keep]
+        if model is not None and any(l.endswith("|?|?") for l in impl_k):
+            # the device's book-keeping could not be read: compare what the property observes (result and wire) only
+            model = ["|".join(l.split("|")[:2]) + "|?|?" for l in model]
+            impl_k = ["|".join(l.split("|")[:2]) + "|?|?" for l in impl_k]
         succ = sum(1 for r in recs if r["res"].startswith("note"))
         maxheld = max([len(l.split("|")[2].split()) for l in impl] + [0])
         for r in recs:
